@@ -20,7 +20,7 @@ RULE = ("all failure patterns over attempts (F=exception, T=timeout, S=success) 
         "trivial = N=0 with success")
 ASSUMPTIONS = ["Redis and RabbitMQ are wire-level fakes", "virtual time", "cron recurrence not exercised (croniter absent)"]
 EVAL_COUNTER = "chains_judged"
-REQUIRED = ["chains_judged", "retries_timed", "final_dead", "final_gone", "final_rescheduled", "forced_over_budget"]
+REQUIRED = ["chains_judged", "retries_timed", "final_dead", "final_gone", "final_rescheduled", "forced_over_budget", "timezone_offset_runs"]
 CASE_TIMEOUT = 150
 
 POLICIES = ("default", "default_rand", "zero", "linear", "lambda")
@@ -69,6 +69,12 @@ def gen_cases(tier, seed):
         pats7 = ["".join(rnd.choice("FFFT") for _ in range(rnd.randint(0, 8))) for _ in range(nsamp)]
         pats7 = [p + "S" if len(p) <= 7 else p for p in pats7]
         cases.append({"kind": kind, "policy": "linear", "rec": False, "N": 7, "patterns": pats7, "mode": "ladder", "seed": rnd.randrange(10**6)})
+    # the same ladders on machines whose local time is not UTC (every timestamp in a message is a naive local datetime)
+    for i, tz in enumerate(("JST-9", "CET-1", "EST5", "IST-5:30", "NPT-5:45", "HST10")):
+        if tier == "quick" and i >= 4:
+            break
+        for kind in kinds:
+            cases.append({"kind": kind, "policy": ["linear", "lambda", "default"][i % 3], "rec": i % 2 == 1, "N": 2, "patterns": patterns(2), "mode": "ladder", "seed": rnd.randrange(10**6), "tz": tz})
     if tier == "thorough":
         extra = []
         for c in cases:
@@ -157,7 +163,9 @@ async def scenario(loop, case, out, stats, fps, samples):
             out.append(V("worker_died", kind, "run", f"Worker.run: exc={info['exc']!r} returned={info['returned']}"))
         await asyncio.sleep(0.3)
         snap = w.rig.snapshot()
-        epoch = datetime(2040, 1, 1)
+        from rv.sim.loop import EPOCH_S
+
+        epoch = datetime.fromtimestamp(EPOCH_S)  # naive local time of virtual instant 0 (2040-01-01 00:00 on a UTC machine)
         for id_, pat in jobs.items():
             es = [e for e in w.log.events if e.get("id") == id_]
             starts = [e for e in es if e["k"] == "actor_start"]
@@ -269,7 +277,23 @@ def run_case(case):
 
     stats = collections.Counter()
     out, fps, samples = [], set(), []
-    res = vl.run(lambda loop: scenario(loop, case, out, stats, fps, samples), max_steps=6_000_000, seed=case["seed"])
+    import os
+    import time as _time
+
+    old_tz = os.environ.get("TZ")
+    if case.get("tz"):
+        os.environ["TZ"] = case["tz"]
+        _time.tzset()
+        stats["timezone_offset_runs"] += 1
+    try:
+        res = vl.run(lambda loop: scenario(loop, case, out, stats, fps, samples), max_steps=6_000_000, seed=case["seed"])
+    finally:
+        if case.get("tz"):
+            if old_tz is None:
+                os.environ.pop("TZ", None)
+            else:
+                os.environ["TZ"] = old_tz
+            _time.tzset()
     if res.exc is not None:
         if isinstance(res.exc, vl.StepLimit):
             return {"fp": None, "viol": [], "stats": dict(stats), "inconclusive": str(res.exc)}
